@@ -585,6 +585,12 @@ func instrumentAccesses(fset *token.FileSet, rel string, typed *TypedInfo, f *as
 		tm = &typedMarks{fset: fset, fields: typed.Fields[rel], derefs: typed.Derefs[rel]}
 		hasMon = true
 	}
+	waitShimmed := false
+	for _, imp := range f.Imports {
+		if p, _ := strconv.Unquote(imp.Path.Value); (p == shimWait || p == realWait) && (imp.Name == nil || imp.Name.Name == "wait") {
+			waitShimmed = true
+		}
+	}
 	var doList func(list []ast.Stmt) []ast.Stmt
 	var doStmt func(st ast.Stmt)
 	elemCnt := 0
@@ -685,6 +691,20 @@ func instrumentAccesses(fset *token.FileSet, rel string, typed *TypedInfo, f *as
 		var out []ast.Stmt
 		for _, st := range list {
 			// spawned goroutines
+			if g, ok := st.(*ast.GoStmt); ok {
+				// `go wait.Until(...)` -> `wait.GoUntil(...)` (the shim starts the goroutine, or, for a sequential harness that
+				// drives a start-up path, runs the function once in place)
+				if se, ok := g.Call.Fun.(*ast.SelectorExpr); ok && se.Sel.Name == "Until" {
+					if x, ok := se.X.(*ast.Ident); ok && x.Name == "wait" && waitShimmed {
+						se.Sel = ast.NewIdent("GoUntil")
+						doFuncLits(g.Call)
+						out = append(out, &ast.ExprStmt{X: g.Call})
+						n++
+						rep.Rewrites["go wait.Until"]++
+						continue
+					}
+				}
+			}
 			if g, ok := st.(*ast.GoStmt); ok {
 				if id, ok := g.Call.Fun.(*ast.Ident); ok && spawnFuncs[id.Name] {
 					var pre []ast.Stmt
